@@ -24,6 +24,7 @@ RULE = (
     "unique token; non-trivial = a nested node overriding logger or trace id, or >=2 levels of inheritance, together "
     "with a log op with arguments, or a scope name containing '%'; distinct = distinct program"
 )
+RULE += '; programs may re-seed the global random generator; identifiers of all scopes of a case must be pairwise distinct'
 LEVEL_TEXT = (
     "Reference walk: for every log call exactly one record must be captured, on the expected logger (own, else nearest "
     "enclosing, else the one named after the outermost scope; root logger outside any scope) and no other, at the "
@@ -106,6 +107,19 @@ def run_case(case) -> Outcome:
             classes.add("override-logger")
         if "%" in ops[p]["name"]:
             classes.add("percent-in-name")
+    # identifiers are unique, fresh trace ids are fresh - also when the program re-seeds the global random generator
+    seen_ids: dict = {}
+    for p in scopes:
+        idn = ident.get(p)
+        if idn is None:
+            continue
+        if idn[2] in seen_ids:
+            out.violate("tag", "C19.tag/identifier-not-unique", f"scopes {seen_ids[idn[2]]} and {p} share the identifier {idn[2]!r}")
+        seen_ids[idn[2]] = p
+        if not lineage(p) and not ops[p].get("trace") and idn[0] == idn[2]:
+            out.violate("trace", "C19.trace/fresh-trace-id-equals-an-identifier", f"{p}: {idn[0]!r}")
+    if any(o.get("k") == "reseed" for _, o in P.walk_blocks(case["body"])):
+        classes.add("program-reseeds-the-global-random-generator")
     # log lines
     rendered = []
     for r in records:
@@ -211,11 +225,12 @@ def strategy(tier):
         st.sampled_from([None] * 7 + ["few", "many", "type", "str_raises"]),
     )
     sleep = st.builds(lambda t: {"k": "sleep", "t": t}, st.sampled_from([0.25, 0.5]))
+    reseed = st.just({"k": "reseed", "n": 7})
     trace = st.one_of(st.none(), st.none(), st.sampled_from(["t-1", "trace%s", "", "T2"]))
 
     def blocks(children):
         spawn = st.builds(lambda b: {"k": "spawn", "via": "ctx", "body": b}, st.lists(st.one_of(logop, sleep, children), min_size=1, max_size=3))
-        body = st.lists(st.one_of(logop, logop, spawn, children), min_size=1, max_size=4)
+        body = st.lists(st.one_of(logop, logop, logop, logop, spawn, spawn, children, children, reseed), min_size=1, max_size=4)
         a_scope = st.builds(
             lambda n, lg, tr, b: {"k": "scope", "mode": "async", "name": n, "state": [], "disp": None, "disp_obj": False, "logger": lg, "trace": tr, "completion": "sync", "body": b},
             names, st.sampled_from([False, True, True, "late"]), trace, body,
